@@ -52,7 +52,13 @@ func planMarkers(c *Ctx, fr *Frame) map[string]bool {
 				out["TREE"] = true
 			}
 		case *ssa.MapUpdate:
-			if li.F != fr || !isContentMap(in.Map.Type()) {
+			if !isContentMap(in.Map.Type()) {
+				continue
+			}
+			// the planner itself, or a helper it calls directly for one
+			// declared entry (not the tree / glob / parents machinery, which
+			// have their own markers)
+			if li.F != fr && (li.F == nil || li.F.depth != fr.depth+1 || reachesExpansion(c, li.F.Fn) || !insertsParamEntry(in)) {
 				continue
 			}
 			// which normaliser produced the Destination stored in this branch?
@@ -67,14 +73,27 @@ func planMarkers(c *Ctx, fr *Frame) map[string]bool {
 					continue
 				}
 				if call, ok := st.Val.(*ssa.Call); ok {
-					if calleeIs(call, filesPath, "", "NormalizeAbsoluteDirPath") {
-						kind = "DIR"
-					} else if calleeIs(call, filesPath, "", "NormalizeAbsoluteFilePath") {
-						kind = "SINGLE"
+					callee := call.Call.StaticCallee()
+					if callee == nil && li.F != nil {
+						// the normaliser handed in as a function value
+						if fv, ok := li.F.Eval(call.Call.Value).(avFunc); ok {
+							callee = fv.fn
+						}
+					}
+					if callee != nil && c.funcPkgPath(callee) == filesPath {
+						switch callee.Name() {
+						case "NormalizeAbsoluteDirPath":
+							kind = "DIR"
+						case "NormalizeAbsoluteFilePath":
+							kind = "SINGLE"
+						}
 					}
 				}
 			}
 			if kind == "" {
+				if li.F != fr {
+					continue // a helper's insert of something else (implied parents)
+				}
 				kind = "INSERT?"
 			}
 			out[kind] = true
@@ -280,7 +299,7 @@ func checkC05(c *Ctx, r *Report) {
 			r.Check(ok4, "O5-parents", construct, c.instrPos(mu), why4)
 		})
 	}
-	r.Floor("K2", inserts, 5)
+	r.Floor("K2", inserts, 3)
 	checkKeyForms(c, r, reach)
 
 	// sort dominates success return
@@ -373,6 +392,22 @@ func collisionErrorFuncs(c *Ctx) map[*ssa.Function]bool {
 		})
 		if uses {
 			out[fn] = true
+		}
+	}
+	// ... and wrappers (also local closures) that hand its result on
+	for grew := true; grew; {
+		grew = false
+		for _, fn := range c.ModFuncs {
+			if out[fn] || c.funcPkgPath(fn) != filesPath {
+				continue
+			}
+			for base := range out {
+				if returnsResultOf(fn, base, 0) {
+					out[fn] = true
+					grew = true
+					break
+				}
+			}
 		}
 	}
 	return out
@@ -471,7 +506,7 @@ func checkReplacementTable(c *Ctx, r *Report, fn *ssa.Function, mu *ssa.MapUpdat
 	if len(lks) == 0 {
 		return
 	}
-	insertsDir := insertedEntryMayBeDir(fn, mu)
+	insertsDir := insertedEntryMayBeDir(c, fn, mu)
 	insSp := joinSorted(keySpellings(c, mu.Key, fn, 0))
 	for li, hit := range lks {
 		// this lookup finds an occupant, the others do not
@@ -512,10 +547,20 @@ func checkReplacementTable(c *Ctx, r *Report, fn *ssa.Function, mu *ssa.MapUpdat
 
 // insertedEntryMayBeDir: the entry stored by this insert can be a directory
 // (its Destination is produced by the directory normaliser somewhere in fn).
-func insertedEntryMayBeDir(fn *ssa.Function, mu *ssa.MapUpdate) bool {
+func insertedEntryMayBeDir(c *Ctx, fn *ssa.Function, mu *ssa.MapUpdate) bool {
 	found := false
 	forEachInstr(fn, func(in ssa.Instruction) {
-		if call, ok := in.(*ssa.Call); ok && calleeIs(call, filesPath, "", "NormalizeAbsoluteDirPath") {
+		call, ok := in.(*ssa.Call)
+		if !ok {
+			return
+		}
+		isDir := false
+		for _, sc := range calleeCandidates(c, &call.Call) {
+			if c.funcPkgPath(sc) == filesPath && sc.Name() == "NormalizeAbsoluteDirPath" {
+				isDir = true
+			}
+		}
+		if isDir {
 			for _, ref := range *call.Referrers() {
 				if _, isStore := ref.(*ssa.Store); isStore {
 					found = true
@@ -780,19 +825,20 @@ func keySpellings(c *Ctx, v ssa.Value, fn *ssa.Function, depth int) map[string]b
 	}
 	switch x := v.(type) {
 	case *ssa.Call:
-		sc := x.Call.StaticCallee()
-		if sc == nil || c.funcPkgPath(sc) != filesPath {
-			return out
-		}
-		if strings.HasPrefix(sc.Name(), "Normalize") && sc.Object() != nil && sc.Object().Exported() {
-			out[sc.Name()] = true
-			return out
-		}
-		for _, b := range sc.Blocks {
-			if ret, ok := b.Instrs[len(b.Instrs)-1].(*ssa.Return); ok {
-				for _, res := range retResults(ret) {
-					for f := range keySpellings(c, res, sc, depth+1) {
-						out[f] = true
+		for _, sc := range calleeCandidates(c, &x.Call) {
+			if c.funcPkgPath(sc) != filesPath {
+				continue
+			}
+			if strings.HasPrefix(sc.Name(), "Normalize") && sc.Object() != nil && sc.Object().Exported() {
+				out[sc.Name()] = true
+				continue
+			}
+			for _, b := range sc.Blocks {
+				if ret, ok := b.Instrs[len(b.Instrs)-1].(*ssa.Return); ok {
+					for _, res := range retResults(ret) {
+						for f := range keySpellings(c, res, sc, depth+1) {
+							out[f] = true
+						}
 					}
 				}
 			}
@@ -819,4 +865,79 @@ func keySpellings(c *Ctx, v ssa.Value, fn *ssa.Function, depth int) map[string]b
 		}
 	}
 	return out
+}
+
+var candPA *provAnalysis
+var candCtx *Ctx
+
+// calleeCandidates: the functions a call can invoke - its static callee, or,
+// for a call through a func-typed parameter, the function values bound to
+// that parameter at the module's call sites of the enclosing function.
+func calleeCandidates(c *Ctx, call *ssa.CallCommon) []*ssa.Function {
+	if sc := call.StaticCallee(); sc != nil {
+		return []*ssa.Function{sc}
+	}
+	prm, ok := call.Value.(*ssa.Parameter)
+	if !ok {
+		return nil
+	}
+	if candPA == nil || candCtx != c {
+		candPA, candCtx = newProv(c), c
+	}
+	fn := prm.Parent()
+	idx := -1
+	for i, q := range fn.Params {
+		if q == prm {
+			idx = i
+		}
+	}
+	var out []*ssa.Function
+	for _, cs := range candPA.callSites(fn) {
+		if cs.Common().StaticCallee() != fn || idx < 0 || idx >= len(cs.Common().Args) {
+			continue
+		}
+		switch a := cs.Common().Args[idx].(type) {
+		case *ssa.Function:
+			out = append(out, a)
+		case *ssa.MakeClosure:
+			if f, ok := a.Fn.(*ssa.Function); ok {
+				out = append(out, f)
+			}
+		default:
+			return nil // not a known function at some site
+		}
+	}
+	return out
+}
+
+// reachesExpansion: the function (transitively, inside package files) calls
+// the glob or tree-walk machinery.
+func reachesExpansion(c *Ctx, fn *ssa.Function) bool {
+	found := false
+	for g := range c.Reach(fn) {
+		forEachInstr(g, func(in ssa.Instruction) {
+			if call, ok := in.(ssa.CallInstruction); ok {
+				if calleeIs(call, globPath, "", "Glob") || calleeIs(call, "path/filepath", "", "WalkDir") || calleeIs(call, "path/filepath", "", "Walk") {
+					found = true
+				}
+			}
+		})
+	}
+	return found
+}
+
+// insertsParamEntry: the inserted value is the defaults-filled copy of an
+// entry the function received as a parameter (the declared entry itself, not
+// an implied parent or an expanded file).
+func insertsParamEntry(mu *ssa.MapUpdate) bool {
+	call, ok := mu.Value.(*ssa.Call)
+	if !ok {
+		return false
+	}
+	sc := call.Call.StaticCallee()
+	if sc == nil || sc.Name() != "WithFileInfoDefaults" || len(call.Call.Args) == 0 {
+		return false
+	}
+	_, isParam := call.Call.Args[0].(*ssa.Parameter)
+	return isParam
 }
